@@ -40,12 +40,40 @@ RESP_KINDS = ["BindResp-ok", "BindResp-sasl", "BindResp-bad", "Entry", "Ref", "D
 
 
 def base_kind(name: str) -> str:
-    return {"Done-paged": "Done", "ExtResp-named": "ExtResp", "Entry-ctl": "Entry", "ExtResp-big": "ExtResp", "SearchReq-lim1": "SearchReq", "ExtReq-big": "ExtReq"}.get(name, name)
+    return {"Done-paged": "Done", "ExtResp-named": "ExtResp", "Entry-ctl": "Entry", "ExtResp-big": "ExtResp", "SearchReq-lim1": "SearchReq", "ExtReq-big": "ExtReq",
+            "ExtResp-hugeid": "ExtResp", "Done-hugeid": "Done"}.get(name, name)  # fmt: skip
 REQ_KINDS = ["BindReq", "SearchReq", "ExtReq", "Unbind", "SearchReq-lim1"]
+
+
+TLS = "1.3.6.1.4.1.1466.20037"
+# well-formed PDUs of operations the library does not implement (hand-assembled): a DelRequest (a request-type message)
+# and an IntermediateResponse (a response-type message)
+UNKNOWN_KINDS = ["DelReq", "IntermResp"]
+# message ids at the edges of the INTEGER encoding: negative (sign bit), 2^31, and more decimal digits than int -> str allows
+SPECIAL_IDS = [-1, -128, -129, 2**31]
+HUGE_ID = 10**4400  # carried by the kinds "<kind>-hugeid"; the event's id field is the stand-in -4400 (never issued either)
+
+
+class RawPDU:
+    def __init__(self, data: bytes) -> None:
+        self.data = data
+
+    def pack(self, _options: t.Any = None) -> bytes:
+        return self.data
+
+
+def _raw(i: int, op: ber.Node) -> RawPDU:
+    return RawPDU(ber.encode(ber.Node(ber.UNIVERSAL, True, 16, None, [ber.Node(ber.UNIVERSAL, False, 2, ber.int_content(i)), op])))
 
 
 def make_msg(kind: str, i: int) -> t.Any:
     C = L.LDAPResultCode
+    if kind.endswith("-hugeid"):
+        return make_msg(kind[: -len("-hugeid")], HUGE_ID)
+    if kind == "DelReq":
+        return _raw(i, ber.Node(ber.APPLICATION, False, 10, b"dc=x"))
+    if kind == "IntermResp":
+        return _raw(i, ber.Node(ber.APPLICATION, True, 25, None, []))
     if kind == "BindResp-ok":
         return L.BindResponse(i, [], _res(), None)
     if kind == "BindResp-sasl":
@@ -94,6 +122,7 @@ CLIENT_CALLS: t.Dict[str, t.Callable[[t.Any], t.Any]] = {
     "bind_sasl": lambda c: c.bind_sasl("M", cred=b"c"),
     "search": lambda c: c.search_request(),
     "ext": lambda c: c.extended_request("1.2"),
+    "ext_tls": lambda c: c.extended_request(TLS),  # an operation the library knows by name: named operations follow the same rules
     "unbind": lambda c: c.unbind(),
 }
 SERVER_CALLS: t.Dict[str, t.Callable[[t.Any, int], t.Any]] = {
@@ -101,6 +130,7 @@ SERVER_CALLS: t.Dict[str, t.Callable[[t.Any, int], t.Any]] = {
     "bind_response-sasl": lambda s, i: s.bind_response(i, b"x", L.LDAPResultCode.SASL_BIND_IN_PROGRESS),
     "bind_response-bad": lambda s, i: s.bind_response(i, None, L.LDAPResultCode.INVALID_CREDENTIALS),
     "ext_response": lambda s, i: s.extended_response(i),
+    "ext_response-tls": lambda s, i: s.extended_response(i, TLS),
     "notice": lambda s, i: s.extended_response(i, NOTICE),
     "entry": lambda s, i: s.search_result_entry(i, "", []),
     "ref": lambda s, i: s.search_result_reference(i, ["u"]),
@@ -168,6 +198,12 @@ def events(role: str, kmax: int) -> t.List[Event]:
             ev += [("recv", n, aid(i)) for n in RESP_KINDS]
         for i in (0, 1):
             ev += [("recv", n, aid(i)) for n in REQ_KINDS]
+        ev += [("recv", "DelReq", aid(1))]
+        for i in range(0, kmax + 2):
+            ev.append(("recv", "IntermResp", aid(i)))
+        for sid in SPECIAL_IDS:
+            ev += [("recv", n, sid) for n in ("ExtResp", "Done")]
+        ev += [("recv", "ExtResp-hugeid", -4400), ("recv", "Done-hugeid", -4400)]
         for i in (1, 2):
             ev += [("recv2", n, aid(i)) for n in RESP_KINDS]
         ev += [("recv2", n, 0) for n in ("Unbind", "Notice")]
@@ -188,6 +224,7 @@ def events(role: str, kmax: int) -> t.List[Event]:
             ev += [("recv", n, aid(i)) for n in REQ_KINDS]
         for i in (0, 1):
             ev += [("recv", n, aid(i)) for n in RESP_KINDS]
+        ev += [("recv", "DelReq", aid(i)) for i in (0, 1)] + [("recv", "IntermResp", aid(1))]
         for i in (1, 2):
             ev += [("recv2", n, aid(i)) for n in REQ_KINDS]
         ev += [("recvpeer", n, aid(1)) for n in REQ_KINDS + ["Notice"]]
@@ -323,8 +360,12 @@ def _client_expect(inprog: t.Dict[int, str], msgs: t.List[t.Tuple[str, int]]) ->
     g = dict(inprog)
     for name, i in msgs:
         name = base_kind(name)
-        if name in REQ_KINDS:
+        if name in REQ_KINDS or name == "DelReq":
             return False, g, f"{name} is a request-type message"
+        if name == "IntermResp":
+            if g.get(i) is None:
+                return False, g, f"{name} for id {i} which is not in progress"
+            return None, g, "unknown"  # what a response kind the library does not implement does to an operation in progress is not specified
         if name == "Notice":
             return False, g, "notice of disconnection terminates"
         st = g.get(i)
@@ -346,8 +387,10 @@ def _server_expect(inprog: t.Dict[int, str], msgs: t.List[t.Tuple[str, int]]) ->
     g = dict(inprog)
     for name, i in msgs:
         name = base_kind(name)
-        if name in RESP_KINDS:
+        if name in RESP_KINDS or name == "IntermResp":
             return False, g, f"{name} is a response-type message"
+        if name == "DelReq":
+            return None, g, "unknown"  # a request the library does not implement: refused today, possibly supported tomorrow
         if name == "Unbind":
             return False, g, "unbind terminates"
         if name == "BindReq" and any(v != "unk" for v in g.values()):
@@ -493,7 +536,9 @@ def monitors(role: str, g: Ghost, ev: Event, rec: Rec, viol: t.List[t.Tuple[str,
                     for n, j in msgs:
                         n = base_kind(n)
                         st = inprog.get(j)
-                        if st == "search":
+                        if n == "IntermResp":
+                            inprog[j] = "unk"
+                        elif st == "search":
                             if n == "Done":
                                 inprog.pop(j, None)
                             elif n not in ("Entry", "Ref"):
@@ -520,6 +565,8 @@ def monitors(role: str, g: Ghost, ev: Event, rec: Rec, viol: t.List[t.Tuple[str,
                     n = base_kind(n)
                     if n in ("BindReq", "SearchReq", "ExtReq"):
                         inprog[j] = {"BindReq": "bind", "SearchReq": "search", "ExtReq": "ext"}[n]
+                    elif n == "DelReq":
+                        inprog[j] = "unk"
         if kind == "call" and name != "unbind":
             if accepted and i not in inprog:
                 flag("C10", f"response-to-unknown-request-accepted:{name}", f"server sent {name} for id {i}; outstanding = {sorted(inprog)}")
@@ -865,6 +912,8 @@ def denotes(role: str, ev: Event, issued_id: int = 0) -> t.Optional[t.Any]:
             return L.SearchRequest(i, [], "", L.SearchScope.SUBTREE, L.DereferencingPolicy.NEVER, 0, 0, False, L.FilterPresent("objectClass"), [])
         if name == "ext":
             return L.ExtendedRequest(i, [], "1.2", None)
+        if name == "ext_tls":
+            return L.ExtendedRequest(i, [], TLS, None)
         return None
     r = lambda code: L.LDAPResult(code, "", "", [])  # noqa: E731  (the server API always writes an empty referral)
     return {
@@ -872,6 +921,7 @@ def denotes(role: str, ev: Event, issued_id: int = 0) -> t.Optional[t.Any]:
         "bind_response-sasl": L.BindResponse(i, [], r(C.SASL_BIND_IN_PROGRESS), b"x"),
         "bind_response-bad": L.BindResponse(i, [], r(C.INVALID_CREDENTIALS), None),
         "ext_response": L.ExtendedResponse(i, [], r(C.SUCCESS), None, None),
+        "ext_response-tls": L.ExtendedResponse(i, [], r(C.SUCCESS), TLS, None),
         "notice": L.ExtendedResponse(i, [], r(C.SUCCESS), NOTICE, None),
         "entry": L.SearchResultEntry(i, [], "", []),
         "ref": L.SearchResultReference(i, [], ["u"]),
